@@ -24,6 +24,7 @@ import (
 
 	"github.com/anz-bank/sysl/pkg/parse"
 	"github.com/anz-bank/sysl/pkg/pbutil"
+	"github.com/anz-bank/sysl/pkg/sysl"
 	"github.com/spf13/afero"
 )
 
@@ -73,6 +74,23 @@ func (s *c07Spec) compile() (o c07Out) {
 	}
 	o.Text, o.JSON = tb.String(), jb.String()
 	return
+}
+
+// module compiles the specification and returns the module (nil when it does not compile)
+func (s *c07Spec) module() *sysl.Module {
+	layer := afero.NewMemMapFs()
+	var fs afero.Fs = layer
+	if s.Dir != "" {
+		fs = afero.NewCopyOnWriteFs(afero.NewBasePathFs(afero.NewReadOnlyFs(afero.NewOsFs()), s.Dir), layer)
+	}
+	for n, c := range s.Files {
+		_ = afero.WriteFile(layer, n, []byte(c), 0o644)
+	}
+	m, err := parse.NewParser().ParseFromFs(s.Root, fs)
+	if err != nil {
+		return nil
+	}
+	return m
 }
 
 // mixin chains: the result of `-| X` depends on whether X has already received its own mixins,
@@ -165,12 +183,11 @@ func c07Specs(rnd *Rand, tier string) []*c07Spec {
 	// foreign specifications imported into the compilation (the importers run inside the compiler)
 	specs = append(specs,
 		&c07Spec{Name: "swagger-import", Root: "main.sysl", Files: map[string]string{
-			"main.sysl":    "import greeter.yaml as Greeter ~swagger\nimport api2.yaml as Api2 ~swagger\n\nClient:\n    Hello:\n        Greeter <- GET /greeting\n",
-			"greeter.yaml": "swagger: \"2.0\"\ninfo:\n  title: Greeter\n  version: \"1\"\npaths:\n  /greeting:\n    get:\n      responses:\n        200:\n          description: a plain string body\n          schema:\n            type: string\n  /other:\n    get:\n      responses:\n        200:\n          description: another\n          schema:\n            type: string\n",
-			"api2.yaml":    c19Swagger2Doc}},
+			"main.sysl":    "import greeter.yaml as Greeter ~swagger\n\nClient:\n    Hello:\n        Greeter <- GET /greeting\n",
+			"greeter.yaml": c07Greeter}},
 		&c07Spec{Name: "openapi3-import", Root: "main.sysl", Files: map[string]string{
 			"main.sysl": "import pets.yaml as Pets ~openapi3\n\nClient:\n    Hello:\n        Pets <- GET /owners\n",
-			"pets.yaml": c19OpenAPIDoc}})
+			"pets.yaml": c07Pets}})
 	// a model imported in serialised form next to source text (statements the grammar cannot write)
 	specs = append(specs, &c07Spec{Name: "textpb-import", Root: "main.sysl", Files: map[string]string{
 		"main.sysl":  "import dep.textpb\n\nApp:\n    Ep:\n        Missing <- Nope\n    Ep2:\n        Gone <- Nope\n",
@@ -502,3 +519,66 @@ func c07Churn(res *Result, tier string) {
 		res.Eval("churn", true)
 	}
 }
+
+const c07Greeter = `swagger: "2.0"
+info:
+  title: Greeter
+  version: "1"
+paths:
+  /greeting:
+    get:
+      responses:
+        200:
+          description: a plain string body
+          schema:
+            type: string
+  /other:
+    get:
+      responses:
+        200:
+          description: another plain string body
+          schema:
+            type: string
+        404:
+          description: an object
+          schema:
+            $ref: "#/definitions/Err"
+definitions:
+  Err:
+    type: object
+    properties:
+      code: {type: integer}
+      msg: {type: string}
+`
+
+const c07Pets = `openapi: "3.0.0"
+info:
+  title: Pets
+  version: "1"
+paths:
+  /owners:
+    get:
+      parameters:
+        - name: limit
+          in: query
+          schema:
+            type: integer
+      responses:
+        "200":
+          description: ok
+          content:
+            application/json:
+              schema:
+                type: array
+                items:
+                  $ref: "#/components/schemas/Owner"
+components:
+  schemas:
+    Owner:
+      type: object
+      properties:
+        name:
+          type: string
+        phone:
+          type: string
+`
